@@ -130,6 +130,8 @@ HIST_OPS = [
     {"ref": [47.3, 11.5], "pt": [-4000.0, 2500.0]},
     {"ref": [0.0, 0.0], "pt": [10.0, 10.0]},
     {"ref": [60.0, -179.99], "arr": True},
+    {"ref": [47.3, 11.5], "grid2d": True},
+    {"ref": [-33.7, 151.25], "grid2d": True},
     # the SAME tower entries under different reference origins; the live configuration objects are returned and kept
     {"ref": [50.0, 10.0], "fixed_towers": True},
     {"ref": [49.99, 10.02], "fixed_towers": True},
@@ -150,6 +152,10 @@ def hist_op(i):
         tw = copy.deepcopy(FIXED_TOWERS) + ([{"name": "c", "lat": 50.002, "lon": 9.999, "z_m": 3.0}] if op.get("extra") else [])
         cfg = parse_config_dict({"domain": {"nx": 4, "ny": 4, "xmax": 40.0, "ymax": 40.0, "nz": 2, "ref_lat": rlat, "ref_lon": rlon}, "towers": tw, "met": {"ustar": 0.3}})
         return cfg.towers  # live objects: a later parse must not move them
+    if op.get("grid2d"):
+        gx, gy = np.meshgrid(np.arange(-1500.0, 1501.0, 1000.0), np.arange(-900.0, 901.0, 600.0))
+        la, lo = xy_to_latlon(gx, gy, rlat, rlon)
+        return (la, lo)  # the arrays themselves: a later call must not overwrite them
     if op.get("arr"):
         la, lo = xy_to_latlon(np.arange(-2000.0, 2001.0, 1000.0), np.arange(2000.0, -2001.0, -1000.0), rlat, rlon)
         return (np.asarray(la), np.asarray(lo))
